@@ -103,6 +103,12 @@ def gen_corpus(rng, n_random):
     out.append(("parent-is-a-regular-file", 4, b""))
     out.append(("symlink-loop", 5, b""))
     out.append(("name-too-long", 6, b""))
+    # the segment path is a symbolic link (to a valid segment, to something else, to nothing): it is followed
+    out.append(("symlink-to-valid-segment", 7, header(gen=6) + record(rand_record(rng))))
+    out.append(("symlink-to-valid-segment-odd", 7, header(gen=9) + record(rand_record(rng))))
+    out.append(("symlink-to-text", 7, b"foobarbaz"))
+    out.append(("symlink-to-truncated-segment", 7, (header(gen=4) + record(rand_record(rng)))[:40]))
+    out.append(("dangling-symlink", 8, b""))
     for _ in range(n_random):
         k = rng.random()
         if k < 0.3:
@@ -138,6 +144,12 @@ def materialize(root, idx, kind, data, suffix):
         os.symlink("shm", path)                      # shm -> shm
     elif kind == 6:
         path = os.path.join(d, "x" * 300)
+    elif kind == 7:
+        with open(os.path.join(d, "the-real-file"), "wb") as f:
+            f.write(data)
+        os.symlink("the-real-file", path)
+    elif kind == 8:
+        os.symlink("no-such-file", path)
     return path
 
 
@@ -192,7 +204,7 @@ def run_corpus(res, pid, rng, n_random):
         pc = materialize(root, i, kind, data, "c")
         real = rng.randrange(10 ** 9) * NS + rng.randrange(NS)
         mono = rng.randrange(0, 10 ** 6 + 2000) * NS + rng.randrange(NS)
-        if kind == 0 and len(data) >= 32:     # make the clock reading meaningful for the record in the file
+        if kind in (0, 7) and len(data) >= 32:     # make the clock reading meaningful for the record in the file
             a = proto_decode(data[:72] if len(data) >= 72 else data + bytes(72 - len(data)))
             mono = a["as_of_sec"] * NS + a["as_of_nsec"] + rng.choice([-2000, -1000, -999, 0, 1, 4 * NS, 5 * NS, 999 * NS, 1001 * NS])
         clk = (real // NS, real % NS, mono // NS, mono % NS)
@@ -200,7 +212,7 @@ def run_corpus(res, pid, rng, n_random):
         paths.append((pr, pc)); clocks.append(clk); recs.append(r)
         rust_lines.append("seg %s %d %d %d %d" % ((pr,) + clk))
         c_lines.append("seg %s %d %d %d %d" % ((pc,) + clk))
-        mk = 0 if kind == 0 else (2 if kind == 2 else (3 if kind in NOPATH else 1))
+        mk = 0 if kind in (0, 7) else (2 if kind == 2 else (3 if kind in NOPATH else 1))      # links are followed: 7 = the file behind it, 8 = missing
         if kind in NOPATH:
             data = bytes([NOPATH[kind]])             # the model's FNoPath carries the errno
         bl = " ".join(str(x) for x in data)
@@ -226,6 +238,7 @@ def run_corpus(res, pid, rng, n_random):
                 # bytes 68..71 are the struct's trailing padding: PROTOCOL.md gives them no content and
                 # the daemon copies whatever the padding of its stack value holds; not compared
                 after = after[:68] + b"\0\0\0\0" + after[72:]
+        kind = {7: 0, 8: 1}.get(kind, kind)      # a link is what it points to: a file, or nothing
         results.append({"tag": tag, "kind": kind, "data": data, "clock": clocks[i], "record": recs[i],
                         "rust": {k: canon_err(v) for k, v in rf.items()}, "c": {k: canon_err(v) for k, v in cf.items()},
                         "model": mf, "wrt": wrt[i], "wrt_model": wmodel[i], "after": after,
